@@ -201,3 +201,79 @@ Proof.
   unfold deser_AnamHermite, ser_AnamHermite. cbn -[hermite_variance]. rd.
   eapply reads_bind_cons; [apply reads_vdbl; auto|]. apply reads_ret_eq. subst m v. reflexivity.
 Qed.
+
+(* ------------------------------------------------------------------ printed records are lexically well formed *)
+Lemma good_r_int t z : good_title (W t) = true -> good_rec (r_int t z) = true.
+Proof. intros H. unfold r_int, good_rec. rewrite H, print_int_good. reflexivity. Qed.
+Lemma good_r_dbl t d : good_title (W t) = true -> good_rec (r_dbl t d) = true.
+Proof. intros H. unfold r_dbl, good_rec. rewrite H, print_dbl_good. reflexivity. Qed.
+Lemma good_r_bool t b : good_title (W t) = true -> good_rec (r_bool t b) = true.
+Proof. intros H. unfold r_bool, good_rec. rewrite H, print_Z_good. reflexivity. Qed.
+Lemma good_r_str t w : good_title (W t) = true -> good_word w = true -> good_rec (r_str t w) = true.
+Proof. intros H Hw. unfold r_str, good_rec. rewrite H, Hw. reflexivity. Qed.
+Lemma good_r_com t : good_title (W t) = true -> good_rec (r_com t) = true.
+Proof. intros H. exact H. Qed.
+Lemma good_r_vdbl t ds : good_title (W t) = true -> good_rec (r_vdbl t ds) = true.
+Proof.
+  intros H. unfold r_vdbl, good_rec. rewrite H. simpl. induction ds; simpl; auto. rewrite print_dbl_good; auto.
+Qed.
+Lemma good_r_vint t zs : good_title (W t) = true -> good_rec (r_vint t zs) = true.
+Proof.
+  intros H. unfold r_vint, good_rec. rewrite H. simpl. induction zs; simpl; auto. rewrite print_int_good; auto.
+Qed.
+Lemma good_r_vstr t ws : good_title (W t) = true -> forallb good_word ws = true -> good_rec (r_vstr t ws) = true.
+Proof. intros H Hw. unfold r_vstr, good_rec. rewrite H, Hw. reflexivity. Qed.
+
+Lemma forallb_map_true {A B} (p : B -> bool) (f : A -> B) l : (forall x, p (f x) = true) -> forallb p (map f l) = true.
+Proof. intros H. induction l; simpl; auto. rewrite H, IHl. reflexivity. Qed.
+Lemma forallb_flat_map_true {A B} (p : B -> bool) (f : A -> list B) l :
+  (forall x, In x l -> forallb p (f x) = true) -> forallb p (flat_map f l) = true.
+Proof. intros H. induction l; simpl; auto. rewrite forallb_app, H, IHl; simpl; auto. intros; apply H; simpl; auto. Qed.
+
+(* solves  forallb good_rec (concrete list built from the typed record constructors) = true *)
+Ltac good :=
+  repeat first
+    [ apply good_r_int; reflexivity | apply good_r_dbl; reflexivity | apply good_r_bool; reflexivity
+    | apply good_r_com; reflexivity | apply good_r_vdbl; reflexivity | apply good_r_vint; reflexivity
+    | match goal with
+      | |- true = true => reflexivity
+      | |- forallb good_rec [] = true => reflexivity
+      | |- forallb good_rec (_ ++ _) = true => rewrite forallb_app
+      | |- (_ && _)%bool = true => apply andb_true_intro; split
+      | |- forallb good_rec (_ :: _) = true => cbn [forallb]
+      | |- forallb good_rec (map _ _) = true => apply forallb_map_true; intros
+      | |- forallb good_rec (if ?b then _ else _) = true => destruct b
+      end ].
+
+Lemma good_ANeigh a : forallb good_rec (ser_ANeigh a) = true.
+Proof. unfold ser_ANeigh. good. Qed.
+Lemma good_NeighBench o : forallb good_rec (ser_NeighBench o) = true.
+Proof. unfold ser_NeighBench, ser_ANeigh. good. Qed.
+Lemma good_NeighCell o : forallb good_rec (ser_NeighCell o) = true.
+Proof. unfold ser_NeighCell, ser_ANeigh. good. Qed.
+Lemma good_NeighMoving o : forallb good_rec (ser_NeighMoving o) = true.
+Proof. unfold ser_NeighMoving, ser_ANeigh. good. Qed.
+Lemma good_Table o : forallb good_rec (ser_Table o) = true.
+Proof. unfold ser_Table. good. apply forallb_flat_map_true. intros. good. Qed.
+Lemma good_PolyLine2D pts : forallb good_rec (ser_PolyLine2D pts) = true.
+Proof. unfold ser_PolyLine2D. good. Qed.
+Lemma good_PolyElem o : forallb good_rec (ser_PolyElem o) = true.
+Proof. unfold ser_PolyElem. good. apply good_PolyLine2D. Qed.
+Lemma good_Polygons pes : forallb good_rec (ser_Polygons pes) = true.
+Proof. unfold ser_Polygons. good. apply forallb_flat_map_true. intros. apply good_PolyElem. Qed.
+Lemma good_AnamHermite o : forallb good_rec (ser_AnamHermite o) = true.
+Proof. unfold ser_AnamHermite. good. Qed.
+
+(* ------------------------------------------------------------------ whole-file statements *)
+Definition reload {A} (name : string) (ser : A -> list record) (deser : reader A) (o : A) : option A :=
+  nf_read name deser (lex (print (nf_write name (ser o)))).
+Definition file {A} (name : string) (ser : A -> list record) (o : A) : list ascii := print (nf_write name (ser o)).
+
+Lemma roundtrip_of_reads {A} name (ser : A -> list record) (deser : reader A) o :
+  good_word (W name) = true -> forallb good_rec (ser o) = true -> reads deser (ser o) o ->
+  reload name ser deser o = Some o.
+Proof. intros Hn Hg Hr. unfold reload. apply nf_roundtrip; auto. Qed.
+Lemma rewrite_of_roundtrip {A} name (ser : A -> list record) (deser : reader A) o :
+  reload name ser deser o = Some o ->
+  forall o', reload name ser deser o = Some o' -> file name ser o' = file name ser o.
+Proof. intros H o' H'. rewrite H in H'. inversion H'. reflexivity. Qed.
